@@ -295,9 +295,8 @@ def check_one(g, root, skip_known=None):
             elif mode == 'nullfail':
                 expect = True
             else:
-                expect = None if not R.is_simple(q) else True   # nullglob: a missing plain path is an error
-                if not R.is_simple(q):
-                    expect = None
+                # nullglob: a missing plain path is an error, a pattern / predicate / search that matches nothing is not
+                expect = R.missing_is_error(g, q)
             if expect is not None and err != expect:
                 return False, 'empty-result mode %s: %s' % (mode, text)
     return True, 'ok'
